@@ -107,6 +107,11 @@ func collisionQuads(e eco.Eco, cands []string) [][4]string {
 	return out
 }
 
+// Cold, when set, makes scenario construction call nothing of the library (the collision search
+// parses hundreds of versions): the cold-start race pass needs the first library call of the
+// process to happen inside its goroutines.
+var Cold bool
+
 // ForEco builds the scenario of one ecosystem.
 func ForEco(name string) Scenario {
 	e := eco.ByName(name)
@@ -135,8 +140,10 @@ func ForEco(name string) Scenario {
 	if syn.Or != "" {
 		r5 = "<" + va + " " + syn.Or + " >" + vc + " " + syn.Or + " =" + vb
 	}
-	cands := gen.Uniq(gen.Versions(name, 0))
-	quads := collisionQuads(e, cands)
+	var quads [][4]string
+	if !Cold {
+		quads = collisionQuads(e, gen.Uniq(gen.Versions(name, 0)))
+	}
 	inputs := []string{va, vb, vc, rich}
 	// ecosystem-specific spellings whose comparison takes a different code path
 	extra := map[string][]string{
